@@ -407,7 +407,7 @@ def _norm1(e, ctx):
         if fn == ('name', 'hasattr') and len(args) == 2 and args[1][0] == 'const':
             return ('has', args[0], args[1][1])
         if fn == ('name', 'getattr') and len(args) == 3 and args[1][0] == 'const':
-            return ('ifexp', ('has', args[0], args[1][1]), ('attr', args[0], args[1][1]), args[2])
+            return ('phi', ('has', args[0], args[1][1]), ('attr', args[0], args[1][1]), args[2])
         if fn == ('name', 'slice') and not kwargs and 1 <= len(args) <= 3:
             if len(args) == 1:
                 return ('slice', ('const', 0), args[0], ('const', 1))
@@ -449,6 +449,10 @@ def _norm1(e, ctx):
         if op == 'is not':
             return ('un', 'not', ('cmp', 'is', a, b))
         if op == 'is' and b == ('const', None):
+            if a[0] == 'call' and a[1][0] == 'attr' and a[1][2] == 'get' and len(a[2]) == 1 and not a[3] and \
+                    a[2][0][0] == 'call' and a[2][0][1] == ('name', 'id'):
+                # D.get(id(x)) is None  ==  id(x) not in D   (identity-keyed tables never store None)
+                return ('un', 'not', ('cmp', 'in', a[2][0], a[1][1]))
             if a[0] == 'phi':
                 return ('phi', a[1], ('cmp', 'is', a[2], b), ('cmp', 'is', a[3], b))
             if a[0] == 'call' and (_cls_name(a[1]) or "x")[:1].isupper():
@@ -461,6 +465,8 @@ def _norm1(e, ctx):
             op, a, b = '<', b, a
         elif op == '>=':
             op, a, b = '<=', b, a
+        if op == '<=':
+            return ('un', 'not', ('cmp', '<', b, a))       # one order relation only: a <= b  ==  not (b < a)
         if op in ('==', '!='):
             # linear canonical form: (a - b) == 0 with positive leading coefficient
             if not _has_str(a) and not _has_str(b) and _is_arith(a) and _is_arith(b):
@@ -545,6 +551,15 @@ def _norm1(e, ctx):
                 return ('const', a[1] // b[1])
         return None
     if k == 'lin':
+        # flatten nested linear forms / constants (they appear after substitution into a normal form)
+        if any(t[0] in ('lin', 'const') for t, _ in e[2]):
+            c0, d = e[1], {}
+            for t, coef in e[2]:
+                ct, dt = _to_lin(t)
+                c0 += coef * ct
+                for tt, v in dt.items():
+                    _lin_add(d, tt, coef * v)
+            return _from_lin(c0, d)
         # -(-a // b)  ==  ceildiv(a, b): appears as lin(0, ((bin // (lin 0 ((a,-1))) b), -1))
         if e[1] == 0 and len(e[2]) == 1 and e[2][0][1] == -1:
             t = e[2][0][0]
@@ -562,6 +577,11 @@ def _norm1(e, ctx):
                 flat.append(x)
         flat.sort(key=_sort_key)
         return (k, tuple(flat))
+    if k == 'sub':
+        b = e[1]
+        if b[0] == 'call' and b[1][0] == 'attr' and b[1][2] == 'get' and len(b[2]) == 1 and not b[3]:
+            return ('sub', ('sub', b[1][1], b[2][0]), e[2])     # D.get(k)[i] == D[k][i] (subscripting implies presence)
+        return None
     if k == 'slice':
         lo, hi, st = e[1], e[2], e[3]
         if lo == ('const', None):
@@ -569,7 +589,11 @@ def _norm1(e, ctx):
         if st == ('const', None):
             st = ('const', 1)
         return ('slice', lo, hi, st)
+    if k == 'ifexp':
+        return ('phi', e[1], e[2], e[3])
     if k == 'phi':
+        if e[1][0] == 'un' and e[1][1] == 'not':
+            return ('phi', e[1][2], e[3], e[2])
         if e[2] == ('const', False) and e[1] == ('un', 'not', e[3]):
             return e[3]
         if e[3] == ('const', False) and e[1] == e[2]:
